@@ -111,6 +111,12 @@ THammer == /\ Ev.e = "SHammer"
                 /\ bad' = IF ok THEN bad ELSE bad + 1
                 /\ IF ok THEN TRUE ELSE Reject(l, "SHammer")
            /\ UNCHANGED <<vars, ids, sInFac, sCalled, sPending, sIds>>
-TNext == l <= TraceLen /\ l' = l + 1 /\ (TLStep \/ TLBegin \/ TSkip \/ TAttack \/ TStress \/ THammer)
+\* the first calls of a process, made by several threads at once: one UTC value for all, failures fail for all
+TFirstUse == /\ Ev.e = "FirstUse"
+             /\ LET ok == Ev.equal = 1 /\ Ev.badok = 1 IN
+                  /\ bad' = IF ok THEN bad ELSE bad + 1
+                  /\ IF ok THEN TRUE ELSE Reject(l, "FirstUse")
+             /\ UNCHANGED <<vars, ids, sInFac, sCalled, sPending, sIds>>
+TNext == l <= TraceLen /\ l' = l + 1 /\ (TLStep \/ TLBegin \/ TSkip \/ TAttack \/ TStress \/ THammer \/ TFirstUse)
 TSpec == TInit /\ [][TNext]_allvars
 =============================================================================
